@@ -105,9 +105,16 @@ impl Property for C17 {
                     path: t.clone(),
                     bytes: format!("edited by hand {}\n", edits).into_bytes(),
                 });
+                if rng.chance(1, 3) {
+                    // query right after the edit, before any build has seen it
+                    sc.history.push(Step::Cmds(vec![keyed(Cmd::new(&["redo-ood"]))]));
+                }
                 if rng.chance(2, 3) {
                     let c = redo_cmd(rng, "redo-ifchange", &[top.clone()], 2, 100);
                     sc.history.push(Step::Cmds(vec![keyed(c)]));
+                    if rng.chance(1, 2) {
+                        sc.history.push(Step::Cmds(vec![keyed(Cmd::new(&["redo-ood"]))]));
+                    }
                     if rng.chance(1, 2) {
                         sc.history.push(Step::Remove { path: t });
                         sc.history.push(Step::Cmds(vec![keyed(Cmd::new(&["redo-ood"]))]));
@@ -179,6 +186,18 @@ impl Property for C17 {
                             .collect();
                         for t in &known {
                             if wb.is_user_file(t) {
+                                // a generated target the user has taken over by
+                                // hand is left alone by redo-ifchange, and it is
+                                // not a dependent of anything: never out of date
+                                if out.contains(t) {
+                                    v.push(Violation {
+                                        kind: "ood-lists-clean-target".into(),
+                                        detail: format!(
+                                            "history step {}: redo-ood lists {}, a generated target the user has edited by hand: redo-ifchange of it runs nothing; listed: {:?}",
+                                            idx, t, out
+                                        ),
+                                    });
+                                }
                                 continue;
                             }
                             let lo = m.expect(&wb, fs_before, &[t.clone()], false);
